@@ -1068,8 +1068,21 @@ func c20Blank(w *fw.Worker, i int, r *fw.Rand, seq string, wrapPct int) {
 				select {
 				case <-done:
 				case <-time.After(10 * time.Second):
-					w.Violation(i, key("blank-done-not-forwarded"), fmt.Sprintf("step %d: Done on a Blank without a watching inner did not let the monitor exit", k), desc)
-					return
+					// not a verdict by itself: the monitor parked in its own select in two dumps 300ms apart, still
+					// not gone, means that the Done never reached it; anything else is a slow machine
+					s1, d1 := monitorState()
+					time.Sleep(300 * time.Millisecond)
+					s2, _ := monitorState()
+					select {
+					case <-done:
+					default:
+						if s1 == "idle" && s2 == "idle" {
+							w.Violation(i, key("blank-done-not-forwarded"), fmt.Sprintf("step %d: Done on a Blank without a watching inner did not let the monitor exit (monitor idle in its select in two dumps, 10s after Done returned)", k), map[string]any{"case": desc, "goroutine": fw.TrimStack(d1)})
+						} else {
+							w.Inconclusive(i, fmt.Sprintf("monitor not gone 10s after the Blank's Done; monitor state %s/%s", s1, s2))
+						}
+						return
+					}
 				}
 			} else {
 				select {
